@@ -16,6 +16,10 @@ package reader
 //@ spec zeroEOF(lr) = (lr.ungetFlg && lr.char == 0 ==> lr.pos == len(lr.runes) && len(lr.history) == 0)
 //@     && forall(k, offof(lr.history) <= k && k < offof(lr.history) + len(lr.history) && absat(lr.history, k) == 0
 //@                  ==> lr.pos == len(lr.runes) && k == offof(lr.history) + len(lr.history) - 1)
+//@ # C06: newlines that the reader has still to deliver (input suffix, push-back history of at most
+//@ # two runes, pending unread rune).  "Newlines consumed by f" is old(nlPending) - nlPending.
+//@ spec nlPending(lr) = cntnl(lr.runes, lr.pos) + ite(len(lr.history) >= 1 && lr.history[0] == '\n', 1, 0)
+//@     + ite(len(lr.history) >= 2 && lr.history[1] == '\n', 1, 0) + ite(lr.ungetFlg && lr.char == '\n', 1, 0)
 //@ spec atEOF(lr) = lr.pos == len(lr.runes) && len(lr.history) == 0 && (lr.ungetFlg ==> lr.char == 0)
 
 //@ func ti/lexer/reader.replaceNUL
@@ -44,5 +48,6 @@ package reader
 //@        && lr.pos == old(lr.pos) + 1 && lr.history == old(lr.history)
 //@   ensures M(lr) <= old(M(lr))
 //@   ensures result != 0 ==> M(lr) < old(M(lr))
+//@   ensures[C06] old(len(lr.history)) <= 2 ==> nlPending(lr) == old(nlPending(lr)) - ite(result == '\n', 1, 0)
 //@   ensures[C03] old(noNUL(lr)) && old(zeroEOF(lr)) && result == 0 ==> lr.pos == len(lr.runes) && len(lr.history) == 0
 //@   ensures[C03] old(noNUL(lr)) && old(zeroEOF(lr)) ==> zeroEOF(lr)
